@@ -153,6 +153,32 @@ def Pop.clone (P : Pop) (i : Nat) : Pop :=
     | none => P
     | some c => { heap := P.heap ++ [c], agents := P.agents ++ [{ a with cfg := P.heap.length }] }
 
+/-- what `save_checkpoint` writes for one agent: every attribute, every optimizer's `state_dict`
+    (whose `param_groups` carry the learning rates) and the pickled registry -/
+structure Ckpt where
+  attrs : List Rat
+  opts  : List Opt
+  cfg   : Config
+deriving Repr, DecidableEq
+
+def Agent.save (a : Agent) (c : Config) : Ckpt := { attrs := a.attrs, opts := a.opts, cfg := c }
+
+/-- `load_checkpoint` into a twin / the `load` classmethod: attributes and the learning rate of every
+    parameter group are restored BY VALUE from the file; the registry is the unpickled copy, a fresh
+    object at address `addr` -/
+def Ckpt.load (k : Ckpt) (addr : Nat) : Agent := { attrs := k.attrs, cfg := addr, opts := k.opts }
+
+/-- `agents[i].save_checkpoint(f)` followed by `twin.load_checkpoint(f)` (or `Algo.load(f)`), the
+    loaded agent taking the place of `agents[i]` in the population -/
+def Pop.reload (P : Pop) (i : Nat) : Pop :=
+  match P.agents[i]? with
+  | none => P
+  | some a =>
+    match P.heap[a.cfg]? with
+    | none => P
+    | some c =>
+      { heap := P.heap ++ [(a.save c).cfg], agents := P.agents.set i ((a.save c).load P.heap.length) }
+
 /-- tournament selection: the new population consists of clones of the chosen parents -/
 def Pop.select (P : Pop) (idxs : List Nat) : Pop :=
   let Q := idxs.foldl Pop.clone P
@@ -162,12 +188,14 @@ inductive Op where
   | mutate (i k : Nat) (coin : Rat)
   | clone (i : Nat)
   | select (idxs : List Nat)
+  | reload (i : Nat)
 deriving Repr, DecidableEq
 
 def Pop.apply (sem : Sem) (allOpts : Bool) (P : Pop) : Op → Pop
   | .mutate i k coin => P.mutate sem allOpts i k coin
   | .clone i => P.clone i
   | .select idxs => P.select idxs
+  | .reload i => P.reload i
 
 def Pop.run (sem : Sem) (allOpts : Bool) (P : Pop) (ops : List Op) : Pop :=
   ops.foldl (Pop.apply sem allOpts) P
@@ -213,6 +241,7 @@ def Spec.apply (ps : List Param) (A : List SAgent) : Op → List SAgent
   | .mutate i k coin => Spec.mutate ps A i k coin
   | .clone i => Spec.clone A i
   | .select idxs => Spec.select A idxs
+  | .reload _ => A            -- a checkpoint round trip is not observable
 
 def Spec.run (ps : List Param) (A : List SAgent) (ops : List Op) : List SAgent :=
   ops.foldl (Spec.apply ps) A
@@ -332,6 +361,10 @@ def step (s : IOState) : List String → IOState × String
     | some idxs =>
       if idxs.length = 0 ∨ idxs.any (fun i => ¬ valid s.pop i) then (s, "bad-op")
       else ({ s with pop := s.pop.select idxs }, "ok")
+    | none => (s, "bad-op")
+  | ["reload", i] =>
+    match parseNat? i with
+    | some i => if valid s.pop i then ({ s with pop := s.pop.reload i }, "ok") else (s, "bad-op")
     | none => (s, "bad-op")
   | ["dump"] => (s, showPop s.pop)
   | ["sharing"] => (s, showNats (sharing s.pop))
